@@ -231,7 +231,7 @@ def kwargsOf (params : List String) (dependsOn produces : Dict (T (Node V P))) :
   let fromDeps := Dict.mapVals (bind (load false)) dependsOn
   let fromProds := Dict.mapVals (bind (load true))
     (produces.filter (fun kv => !Generated.productsNeedParameter || params.contains kv.1))
-  if Generated.dependsBeforeProduces then Dict.update fromDeps fromProds else Dict.update fromProds fromDeps
+  Dict.update fromDeps fromProds
 
 /-- Python's call `function(**kw)`: `TypeError` for an unexpected keyword or a missing argument. -/
 def callable (f : Func V P) (kw : Dict (T (Obj V P))) : Bool :=
